@@ -1,24 +1,39 @@
 --------------------------- MODULE BytecodeProof ---------------------------
-(* TLAPS proof of the operand-field contract of Bytecode.tla for the WHOLE 16-bit field (not only  *)
-(* the boundary vectors TLC enumerates): an admitted address survives truncation to 16 bits and    *)
-(* sign extension; the first address beyond the admitted range does not.                           *)
-EXTENDS Integers, TLAPS
-W == 65536
-Enc(a) == a % W
-SignExt(n) == IF n >= W \div 2 THEN n - W ELSE n
-Dec(n) == SignExt(n)
-Admit(a) == a >= -(W \div 2) /\ a < W \div 2
+(* TLAPS proofs about the encoding of BytecodeEnc.tla for EVERY integer, where TLC enumerates boundary vectors:    *)
+(* an admitted address survives truncation to the 16-bit field and sign extension; an address outside the admitted *)
+(* range never does (so refusing it is the only correct behaviour); an admitted function value round-trips.         *)
+EXTENDS BytecodeEnc, TLAPS
 
-THEOREM RoundTrip == \A a \in Int : Admit(a) => Dec(Enc(a)) = a
-  BY DEF Admit, Dec, Enc, SignExt, W
+THEOREM AddrRoundTrip == \A a \in Int : Admit(a) => SignExt(a % W) = a
+  BY DEF Admit, SignExt, W
 
-THEOREM Wraps == Dec(Enc(32768)) = -32768 /\ Dec(Enc(-32769)) = 32767
-  BY DEF Dec, Enc, SignExt, W
+THEOREM AddrWraps == SignExt(32768 % W) = -32768 /\ SignExt((-32769) % W) = 32767
+  BY DEF SignExt, W
 
-THEOREM OutOfRangeNeverRoundTrips == \A a \in Int : ~Admit(a) => Dec(Enc(a)) # a
+THEOREM OutOfRangeNeverRoundTrips == \A a \in Int : ~Admit(a) => SignExt(a % W) # a
   <1>1. \A n \in 0..(W - 1) : Admit(SignExt(n))
         BY DEF Admit, SignExt, W
-  <1>2. \A a \in Int : Enc(a) \in 0..(W - 1)
-        BY DEF Enc, W
-  <1> QED BY <1>1, <1>2 DEF Dec
+  <1>2. \A a \in Int : a % W \in 0..(W - 1)
+        BY DEF W
+  <1> QED BY <1>1, <1>2
+
+\* the three operand fields: what SrcAddr reads from the word EncodeSrc builds is the admitted address
+THEOREM FieldRoundTrip == \A a \in Int, k \in 0..7, sel \in 0..2 : Admit(a) => SrcAddr(EncodeSrc(sel, k, a), sel) = a
+  <1> SUFFICES ASSUME NEW a \in Int, NEW k \in 0..7, NEW sel \in 0..2, Admit(a) PROVE SrcAddr(EncodeSrc(sel, k, a), sel) = a
+      OBVIOUS
+  <1>1. SignExt(a % W) = a BY AddrRoundTrip
+  <1>2. CASE sel = 0 BY <1>1, <1>2 DEF SrcAddr, EncodeSrc
+  <1>3. CASE sel = 1 BY <1>1, <1>3 DEF SrcAddr, EncodeSrc
+  <1>4. CASE sel = 2 BY <1>1, <1>4 DEF SrcAddr, EncodeSrc
+  <1> QED BY <1>2, <1>3, <1>4
+
+THEOREM FunctionRoundTrips == \A e \in Int, p \in Int, l \in Int : FunAdmit(e, p, l) =>
+                                 ToFunction(NewFunction(e, p, l)) = [entry |-> e, params |-> p, locals |-> l]
+  <1> SUFFICES ASSUME NEW e \in Int, NEW p \in Int, NEW l \in Int, FunAdmit(e, p, l)
+               PROVE ToFunction(NewFunction(e, p, l)) = [entry |-> e, params |-> p, locals |-> l]
+      OBVIOUS
+  <1>1. p % W = p /\ l % W = l BY DEF FunAdmit, W
+  <1>2. (e \div W) % W = e \div W BY DEF FunAdmit, W
+  <1>3. (e \div W) * W + (e % W) = e BY DEF W
+  <1> QED BY <1>1, <1>2, <1>3 DEF ToFunction, NewFunction
 =============================================================================
